@@ -15,6 +15,8 @@ ORD = lambda d: En('Ordering', d)
 def const_model(m, s):
     if s in ('Less', 'Equal', 'Greater') or s.endswith(('Ordering::Less', 'Ordering::Equal', 'Ordering::Greater')):
         return En('Ordering', {'Less': -1, 'Equal': 0, 'Greater': 1}[s.rsplit('::', 1)[-1]])
+    if s.endswith('Duration::MAX'):
+        return mk_duration(z3.BitVecVal(DUR_MAX, 128))
     if s.endswith('Duration::ZERO'):
         return mk_duration(z3.BitVecVal(0, 128))
     if re.search(r'(^|::)(<impl )?f32>?::INFINITY$', s): return Sc('f32', z3.fpPlusInfinity(F32))
@@ -68,6 +70,8 @@ def duration_from_secs_f32(m, x):
         n = D(x)
         m.assume(z3.ULE(n, z3.BitVecVal(DUR_MAX, 128)))
         m.assume(z3.Implies(z3.fpIsZero(x), n == 0))
+        # magnitude: x < 2^40 s  =>  fewer than 2^71 ns (1e9 < 2^30; rounding adds at most 1)
+        m.assume(z3.Implies(z3.fpLT(x, z3.FPVal(2.0 ** 40, F32)), z3.ULE(n, z3.BitVecVal(1 << 71, 128))))
         return mk_duration(n)
     neg = z3.fpLT(x, z3.FPVal(0.0, F32))
     if m.branch(neg):
@@ -401,7 +405,7 @@ def _default(m, q, args, callee):
     if q == 'EnumMap':
         return enum_map_default(m, callee)
     h = getattr(m, 'default_hook', None)
-    if h:
+    if h and (q in ('State', 'Value', 'Data') or 'Target' in str(q) or 'Target' in callee):
         r = h(m, q, callee)
         if r is not NotImplemented: return r
     return NotImplemented
@@ -946,6 +950,14 @@ def _from_secs_f32(m, q, args, callee):
     return duration_from_secs_f32(m, args[0].t)
 
 
+@_m(PATH_MODELS, ('Duration', 'try_from_secs_f32'))
+def _try_from_secs_f32(m, q, args, callee):
+    try:
+        return En('Result', 0, {0: [duration_from_secs_f32(m, args[0].t)]})
+    except Panic:
+        return En('Result', 1, {1: [Agg('TryFromFloatSecsError', [])]})
+
+
 @_m(PATH_MODELS, ('Duration', 'as_secs_f32'))
 def _as_secs_f32(m, q, args, callee):
     return duration_as_secs_f32(m, dur_nanos(m, args[0]))
@@ -1339,7 +1351,10 @@ def _dur_misc(m, q, args, callee):
     s = a + b; ovf = z3.UGT(s, z3.BitVecVal(DUR_MAX, 128))
     if callee.endswith('checked_add'):
         return En('Option', z3.If(ovf, z3.BitVecVal(0, 64), z3.BitVecVal(1, 64)), {0: [], 1: [mk_duration(s)]})
-    return mk_duration(z3.If(ovf, z3.BitVecVal(DUR_MAX, 128), s))
+    # fork rather than ite: when saturation is infeasible under the path condition the result is the plain sum
+    if m.branch(ovf):
+        return mk_duration(z3.BitVecVal(DUR_MAX, 128))
+    return mk_duration(s)
 
 
 @_m(TRAIT_MODELS, ('Add', 'add'), ('Sub', 'sub'))
